@@ -650,6 +650,21 @@ def checkC03 (j : Json) : R Json := do
                 ("bound", Json.arr #[jStrs x, jStrs y, jStrs z])]
     pure (ok (Json.mkObj [("supported", Json.bool true), ("executed_paths", jNat executed)]))
 
+/-- exact execution along one path: for each listed variable the number of monomials (with
+    multiplicity) of its final value -- used to see which values keep growing with a loop count -/
+def execSizes (j : Json) : R Json := do
+  let n ← nodeOfJson (← field j "ast")
+  let path ← natListOf (← field j "path")
+  let vars ← strListOf (← field j "vars")
+  match Spec.desugarFunc n with
+  | none => pure (ok (Json.mkObj [("supported", Json.bool false)]))
+  | some cmd =>
+    match Spec.exec 400 cmd path [] with
+    | none => pure (ok (Json.mkObj [("supported", Json.bool true), ("executed", Json.bool false)]))
+    | some (_, store) =>
+      pure (ok (Json.mkObj [("supported", Json.bool true), ("executed", Json.bool true),
+        ("sizes", jList (fun v => Json.arr #[Json.str v, jNat (Spec.Store.get store v).length]) vars)]))
+
 end Ops
 
 def dispatch (op : String) (j : Json) : R Json :=
@@ -683,6 +698,7 @@ def dispatch (op : String) (j : Json) : R Json :=
   | "model.cli" => Ops.cliOp j
   | "model.result_roundtrip" => Mwp.Wire.resultRoundtripOp j
   | "check.C03" => Ops.checkC03 j
+  | "spec.exec_sizes" => Ops.execSizes j
   | "check.C10" => Ops.checkC10 j
   | "check.C10eq" => Ops.checkRelEq j
   | "model.choices" => Ops.choicesModel j
